@@ -7,6 +7,8 @@ pub mod model;
 pub mod ops;
 pub mod oracles;
 pub mod stuck;
+#[cfg(feature = "tsan")]
+pub mod tsan;
 pub mod payload;
 pub mod rng;
 pub mod scn;
